@@ -131,6 +131,15 @@ pub fn new_app_with(kind: ApiKind) -> PApp {
 
 pub const PRESTORED_TAG: u32 = 77;
 
+/// An address generator that repeats itself: every code has one address, whatever the instance number. A second
+/// plain instantiation of a code must then be rejected as a duplicate and leave the first contract alone.
+pub struct OneAddressPerCode;
+impl cw_multi_test::AddressGenerator for OneAddressPerCode {
+    fn contract_address(&self, api: &dyn cosmwasm_std::Api, storage: &mut dyn cosmwasm_std::Storage, code_id: u64, _instance_id: u64) -> AnyResult<Addr> {
+        cw_multi_test::SimpleAddressGenerator.contract_address(api, storage, code_id, 0)
+    }
+}
+
 /// A checksum generator that computes what the default one computes (it is not exported).
 pub struct SameAsDefaultChecksums;
 impl cw_multi_test::ChecksumGenerator for SameAsDefaultChecksums {
@@ -142,7 +151,15 @@ impl cw_multi_test::ChecksumGenerator for SameAsDefaultChecksums {
 /// `prestored`: a code is stored on the wasm keeper before its generators are configured and before the keeper is
 /// handed to the builder (code id 1, creator = the default creator); it must be there afterwards like any other.
 pub fn new_app_setup(kind: ApiKind, prestored: bool) -> PApp {
+    new_app_setup2(kind, prestored, false)
+}
+
+pub fn new_app_setup2(kind: ApiKind, prestored: bool, one_address_per_code: bool) -> PApp {
     let b: cw_multi_test::BasicAppBuilder<PMsg, PQuery> = AppBuilder::new_custom();
+    if one_address_per_code {
+        let keeper: WasmKeeper<PMsg, PQuery> = WasmKeeper::new().with_address_generator(OneAddressPerCode);
+        return b.with_custom(CustomMod).with_api(FlexApi::of(kind)).with_wasm(keeper).build(|_, _, _| {});
+    }
     if prestored {
         use cw_multi_test::Wasm;
         let mut keeper: WasmKeeper<PMsg, PQuery> = WasmKeeper::new();
@@ -205,6 +222,9 @@ pub struct Case {
     /// a code was stored on the wasm keeper before it was configured and handed to the builder
     #[serde(default)]
     pub prestored: bool,
+    /// the keeper's address generator repeats addresses (one per code)
+    #[serde(default)]
+    pub one_address_per_code: bool,
 }
 
 /// A discrepancy: the properties it refutes, a stable signature, and a description.
@@ -249,13 +269,19 @@ impl World {
     }
 
     pub fn for_case(case: &Case) -> World {
-        World::with_setup(case.api, case.prestored)
+        World::with_setup2(case.api, case.prestored, case.one_address_per_code)
     }
 
     pub fn with_setup(kind: ApiKind, prestored: bool) -> World {
-        let app = new_app_setup(kind, prestored);
+        World::with_setup2(kind, prestored, false)
+    }
+
+    pub fn with_setup2(kind: ApiKind, prestored: bool, one_address_per_code: bool) -> World {
+        let prestored = prestored && !one_address_per_code;
+        let app = new_app_setup2(kind, prestored, one_address_per_code);
         let mut model = ChainM::new(block_tuple(&app.block_info()));
         model.api = kind;
+        model.one_address_per_code = one_address_per_code;
         if prestored {
             model.codes.insert(1, CodeM { creator: MockApi::default().addr_make("creator").to_string(), checksum: default_checksum(1), code_tag: PRESTORED_TAG, lifted: false, entry_points: (true, true, true) });
         }
@@ -974,7 +1000,12 @@ impl World {
                 rep.add("e1/trace/reply_entries_compared", real_trace.iter().filter(|t| t.entry == Entry::Reply).count() as u64);
                 rep.add("e1/trace/probes_compared", real_trace.iter().map(|t| t.probes.len()).sum::<usize>() as u64);
                 let diverged = trace_diff.is_some();
-                if let Some(dd) = trace_diff {
+                if let Some(mut dd) = trace_diff {
+                    // an instantiation that runs at the address of a contract that existed before this transaction
+                    // takes that contract over (code, admin) without being its admin: C12's subject as well
+                    if dd.sig.contains("instantiate") && real_trace.iter().any(|t| t.entry == Entry::Instantiate && self.model.st.contracts.contains_key(&t.contract)) && !dd.props.contains(&"C12") {
+                        dd.props.push("C12");
+                    }
                     discs.push(dd);
                 }
 
